@@ -5,9 +5,12 @@
     std::generate_canonical<T, digits> = k raw engine outputs, k fixed per (type, engine)).  The theorems
     hold for EVERY integrand and channel-map oracle (so for every pattern of zero, finite and non-finite
     values), every grid, weight vector and selected channel, every distribution set, every call count, any
-    Num: no branch of a call touches the generator.  The raw-draw cost k per number and its equality with
-    hep::random_number_usage is arithmetic translated from generator_helper.hpp ([usage_k]); that both
-    hep-mc and libstdc++ obtain floor(log2 R) from libm is an assumption measured by the tie, not proved. *)
+    Num: no branch of a call touches the generator.  The raw-draw cost k per number: since the repair of the
+    defect found for ranges 2^7, 2^14, 2^53 (hep-mc rounded log2 R differently from libstdc++),
+    hep::random_number_usage no longer predicts k by a formula but counts the outputs std::generate_canonical
+    takes from an engine with the same range; [C10_usage_is_cost] states what that needs - the number of
+    outputs taken must not depend on their values - and the real count is measured for every engine of the
+    harness (standard engines, engine adaptors with power-of-two ranges, odd moduli). *)
 From Coq Require Import ZArith NArith List Bool.
 From HepMC Require Import Num Translated Result Accum VegasPdf Iter Chkpt Run Lemmas_Run Lemmas_C16 Lemmas_C10.
 Import ListNotations.
@@ -43,11 +46,20 @@ Theorem C10_plain_stored_generator : forall (K : Num) (strm : N -> K) ps f d cb 
 Proof. exact (@c10_plain_stored). Qed.
 Print Assumptions C10_plain_stored_generator.
 
-(* the library's usage predictor (translated integer part): max(1, ceil(b / floor(log2 R))), the
-   formula of std::generate_canonical, without wrap-around *)
-Theorem C10_usage_predictor : forall b l, (1 <= b < 2 ^ 32)%Z -> (1 <= l < 2 ^ 32)%Z -> usage_k b l = Z.max 1 ((b + l - 1) / l).
-Proof. exact usage_k_correct. Qed.
-Print Assumptions C10_usage_predictor.
+(* the library's usage predictor runs std::generate_canonical on an engine of the same range that always returns min() and counts
+   the outputs taken: for any generate_canonical whose consumption does not depend on the values drawn, that count is the cost of
+   every number of every run *)
+Theorem C10_usage_is_cost : forall (raw : Type) (draws : (nat -> raw) -> nat) (lo : raw),
+  (forall s1 s2, draws s1 = draws s2) -> forall s, draws s = predicted_usage raw draws lo.
+Proof. exact usage_is_cost. Qed.
+Print Assumptions C10_usage_is_cost.
+
+(* instance: the algorithm of the C++11 standard (k = max(1, ceil(b / log2 R)) outputs, whatever way log2 R is rounded) *)
+Theorem C10_usage_standard_algorithm : forall (raw : Type) (lo : raw) (b log2r : N) (s : nat -> raw),
+  standard_draws raw b log2r s = predicted_usage raw (standard_draws raw b log2r) lo /\
+  standard_draws raw b log2r s = N.to_nat (N.max 1 ((b + log2r - 1) / log2r)).
+Proof. exact usage_standard. Qed.
+Print Assumptions C10_usage_standard_algorithm.
 
 (* non-vacuity: 5 calls in 3 dimensions from position 7 end at 22 although the values are NaN, 0, 1, 1, 1 *)
 Example C10_example : match plain_iteration ex10_strm [] ex10_f 3 5 7 0 with Ok (r, g', idx', _) => g' = 22%N /\ r_nz (p_main r) = 4%N /\ r_fin (p_main r) = 3%N | UB _ => False end.
